@@ -222,4 +222,4 @@ def strategy(tier):
     return st.builds(lambda ir, ps: {"ir": ir, "perm_seed": ps}, graph_ir(), st.integers(0, 10**6))
 
 
-PARTS = [Part("compose", run, strategy, {"quick": 2000, "thorough": 60000}, rule=RULE)]
+PARTS = [Part("compose", run, strategy, {"quick": 2000, "thorough": 30000}, rule=RULE)]
